@@ -15,6 +15,7 @@ import (
 
 	crypto "github.com/onflow/crypto"
 	"github.com/onflow/crypto/hash"
+	"github.com/onflow/crypto/random"
 	"github.com/onflow/crypto/simrt"
 
 	"verifsim/choice"
@@ -376,7 +377,7 @@ func cpSigs(l []crypto.Signature) []crypto.Signature {
 	return o
 }
 
-var opNames = []string{"kmac.ComputeHash", "bls.Sign", "bls.Verify", "bls.VerifyWrong", "BLSVerifyPOP", "SPOCKVerify", "VerifyOneMessage", "VerifyManyMessages", "BatchVerify", "ecdsa.Sign", "ecdsa.Verify", "blshasher.ComputeHash", "SPOCKVerifyAgainstData", "errorpath", "AggregateSignatures"}
+var opNames = []string{"kmac.ComputeHash", "bls.Sign", "bls.Verify", "bls.VerifyWrong", "BLSVerifyPOP", "SPOCKVerify", "VerifyOneMessage", "VerifyManyMessages", "BatchVerify", "ecdsa.Sign", "ecdsa.Verify", "blshasher.ComputeHash", "SPOCKVerifyAgainstData", "errorpath", "AggregateSignatures", "prg.derived"}
 
 // exec performs an operation and returns a canonical result string. Deterministic operations
 // return their bytes; ECDSA Sign (randomised) is checked by verification.
@@ -472,6 +473,21 @@ func (w *world) exec(o op, own hash.Hasher) (res string) {
 			ok, err := w.pks[ka].Verify(w.sigs[ka][mb], w.msgs[mb], own)
 			return fmt.Sprint("verify.badhasher ", ok, err != nil)
 		}
+	case "prg.derived":
+		// a generator of the task's OWN (built here from a fixed seed): independent objects do not
+		// share state, whatever other generators do at the same time
+		seed := make([]byte, 32)
+		seed[0], seed[1] = byte(o.a), byte(o.b)
+		p, err := random.NewChacha20PRG(seed, []byte("roconc"))
+		if err != nil {
+			return "err " + err.Error()
+		}
+		var acc []uint64
+		for i := 0; i < 6; i++ {
+			acc = append(acc, p.UintN(uint64(1000+37*o.a+i)))
+		}
+		perm, _ := p.Permutation(5 + o.b)
+		return fmt.Sprint(acc, perm)
 	case "ecdsa.Sign":
 		k := o.a % 2
 		s, err := w.esk[k].Sign(w.msgs[mb], own)
